@@ -20,7 +20,8 @@ Decided clauses, per listener program, on SSA-form IR:
       stays inside the object it indexes - an offset not reset on every path
       round the receive loop accumulates from datagram to datagram;
   K9  a heap object remembered in a writable global pointer and handed to free()
-      must have that global updated by the function that frees it.
+      must have that global updated by the function that frees it;
+  K10 a divisor taken from the datagram is guarded by a dominating non-zero test.
 Not decided: everything else in the statement (absence of every memory error,
 termination in general, liveness after a bad datagram)."""
 from .. import build, irparse, taint
@@ -76,7 +77,7 @@ def run(tier, res):
     if total_recv < floors.get('C18_min_recv_calls', 6):
         raise Broken('only %d receive calls found over all listeners' % total_recv)
     res.explanation = __doc__
-    res.rule = 'K1-K9 as in the module docstring, over %d listener programs' % len(LISTENERS)
+    res.rule = 'K1-K10 as in the module docstring, over %d listener programs' % len(LISTENERS)
     build.cleanup()
     return res
 
